@@ -17,7 +17,7 @@ from common import Check
 
 PID = "C09"
 PY_GRAM = "/usr/src/python3.11/Grammar/python.gram"
-NPROC = min(16, common.NCPU)
+NPROC = int(os.environ.get("VERIF_WORKERS", min(16, common.NCPU)))
 
 
 def nz(x):
@@ -75,6 +75,8 @@ def grammar_certificate(c):
     if extra != cert["reserved_words"]:
         c.violation("grammar-cert", "the set of reserved words Scenic adds to Python changed",
                     dict(rule="<keywords>", cls="keywords", now=extra, recorded=cert["reserved_words"]))
+    import c09_kernelcert
+    c09_kernelcert.run(c, g, nz, cert)
     c.cov["grammar"] = dict(python_rules=len(P), scenic_rules=len(S), identical_modulo_actions=identical,
                             differing_justified=differing, reserved_words=extra,
                             left_recursive_rules=sorted(n for n, r_ in S.items() if r_["left_recursive"]))
@@ -126,25 +128,79 @@ def par(kind, items, key, extra, nproc=NPROC, timeout=7000):
     return out
 
 
-def select(scanned, n, rng):
-    """Stratified choice: greedy cover of syntactic features, then fill size strata evenly."""
-    ok = [r for r in scanned if "skip" not in r]
-    chosen, have = [], {}
-    pool = list(ok)
-    rng.shuffle(pool)
-    # each feature at least 4 times, smallest files first
-    for feat in sorted({f for r in ok for f in r["features"]}):
-        cands = sorted((r for r in pool if feat in r["features"] and r not in chosen), key=lambda r: r["size"])
-        for r in cands[:max(0, 4 - have.get(feat, 0))]:
-            chosen.append(r)
-            for f in r["features"]:
+def corpus_index(c, files, reserved, meta):
+    """Feature index of the WHOLE corpus (CPython only), cached in work/ and refreshed for new / changed files."""
+    import hashlib
+    key = hashlib.sha256(json.dumps([meta["python"], meta.get("feature_version"), sorted(reserved)]).encode()).hexdigest()[:10]
+    cache_p = os.path.join(common.WORK, f"c09_index_{key}.json")
+    cache = {}
+    if os.path.exists(cache_p):
+        try:
+            cache = json.load(open(cache_p))
+        except ValueError:
+            cache = {}
+    need = []
+    for p, size in files:
+        r = cache.get(p)
+        try:
+            mt = int(os.path.getmtime(p))
+        except OSError:
+            continue
+        if r is None or r.get("fsize") != size or r.get("mtime", mt) != mt:
+            need.append((p, size))
+    c.cov["index"] = dict(cache=os.path.basename(cache_p), files=len(files), rescanned=len(need))
+    if need:
+        res = par("scan", [p for p, _ in sorted(need, key=lambda x: -x[1])], "paths", dict(reserved=reserved))
+        fsize = dict(need)
+        for r in res:
+            r["fsize"] = fsize[r["path"]]
+            cache[r["path"]] = r
+        os.makedirs(common.WORK, exist_ok=True)
+        tmp = cache_p + f".{os.getpid()}.tmp"
+        json.dump(cache, open(tmp, "w"))
+        os.replace(tmp, cache_p)
+    return [cache[p] for p, _ in files if p in cache]
+
+
+def select_cover(index, k, byte_budget, rng, big=60000):
+    """Greedy set cover over the whole corpus index: every fine feature that occurs in some usable file is covered k times
+    (once when only files > `big` characters have it), rarest features first, smallest files first; the remaining byte budget is
+    spent evenly over size strata."""
+    ok = [r for r in index if "skip" not in r and r.get("fine")]
+    order = list(ok)
+    rng.shuffle(order)
+    order.sort(key=lambda r: r["size"])
+    by_feat = {}
+    for r in order:
+        for f in r["fine"]:
+            by_feat.setdefault(f, []).append(r)
+    chosen, have, reason = {}, {}, {}
+    for feat in sorted(by_feat, key=lambda f: (len(by_feat[f]), f)):
+        for r in by_feat[feat]:
+            want = k if r["size"] <= big else 1
+            if have.get(feat, 0) >= want:
+                break
+            if r["path"] in chosen:
+                continue
+            chosen[r["path"]] = r
+            reason[r["path"]] = feat
+            for f in r["fine"]:
                 have[f] = have.get(f, 0) + 1
-    strata = [(0, 1000), (1000, 2500), (2500, 5000), (5000, 9000), (9000, 10 ** 9)]
-    per = max(1, (n - len(chosen)) // len(strata))
+    cover_bytes = sum(r["size"] for r in chosen.values())
+    strata = [(0, 1000), (1000, 2500), (2500, 5000), (5000, 9000), (9000, 14000)]
+    rest = max(0, byte_budget - cover_bytes)
+    pool = [r for r in ok if r["path"] not in chosen]
+    rng.shuffle(pool)
     for lo, hi in strata:
-        cands = [r for r in pool if lo <= r["size"] < hi and r not in chosen]
-        chosen += cands[:per]
-    return chosen[:max(n, len(chosen))]
+        spent = 0
+        for r in pool:
+            if lo <= r["size"] < hi and spent + r["size"] <= rest / len(strata):
+                chosen[r["path"]] = r
+                spent += r["size"]
+    stats = dict(features=len(by_feat), cover_files=len(reason), cover_bytes=cover_bytes, chosen=len(chosen),
+                 chosen_bytes=sum(r["size"] for r in chosen.values()),
+                 features_covered_k=sum(1 for f in by_feat if have.get(f, 0) >= min(k, len(by_feat[f]))))
+    return list(chosen.values()), reason, stats
 
 
 def model_line(flags, toks):
@@ -162,6 +218,8 @@ def check_model(c, exe, items, what):
         head, res, rw = o.split(" | ")
         wf, rej, ctxok = head.split()
         ident = dict(path=r.get("path"), lineno=r.get("lineno"), rename=r.get("rename"), what=what)
+        if what == "sentence":
+            ident = dict(what=what, rule=r.get("rule"), sentence=r.get("sentence"))
         c.cov["traces_validated_against_impl"] += 1
         c.hist("model:" + res.split()[0])
         if wf != "1":
@@ -192,14 +250,16 @@ def verdicts(c, results, what):
     for r in results:
         st = r["status"]
         ident = dict(path=r.get("path"), rename=r.get("rename"), lineno=r.get("lineno"), fragment=r.get("kind"), what=what)
+        if what == "sentence":
+            ident = dict(what=what, rule=r.get("rule"), sentence=r.get("sentence"))
         if st == "skip":
             c.hist(f"{what}:skip:" + r["reason"].split(":")[0])
             continue
         if st == "harness-error":
             c.violation("harness", "implementation driver failed", dict(case=ident, error=r.get("error")), no_input=True)
             continue
-        nontrivial = r.get("nodes", 0) >= (3 if what == "fragment" else 20) and not r.get("dup")
-        c.count((what, r.get("path"), r.get("lineno"), r.get("col"), r.get("rename")), nontrivial=nontrivial)
+        nontrivial = r.get("nodes", 0) >= (3 if what in ("fragment", "sentence") else 20) and not r.get("dup")
+        c.count((what, r.get("path") or r.get("sentence"), r.get("lineno"), r.get("col"), r.get("rename")), nontrivial=nontrivial)
         c.hist(f"{what}:{st}")
         for f in r.get("features", []):
             c.hist("feature:" + f)
@@ -240,7 +300,7 @@ def main():
     c.cov["python"] = meta["python"]
     c.cov["reserved_words"] = reserved
 
-    grammar_certificate(c)
+    g = grammar_certificate(c)
 
     if c.replay:
         body = json.load(open(c.replay))
@@ -249,6 +309,12 @@ def main():
             res = par("fragments", [case["path"]], "paths", {}, nproc=1)
             verdicts(c, res, "fragment")
             check_model(c, exe, res, "fragment")
+        elif case.get("sentence") is not None:
+            res = par("compare", [dict(id=0, src=case["sentence"], model=True)], "jobs", dict(reserved=reserved), nproc=1)
+            for r in res:
+                r["sentence"], r["rule"] = case["sentence"], case.get("rule")
+            verdicts(c, res, "sentence")
+            check_model(c, exe, res, "sentence")
         elif case.get("path"):
             job = dict(id=0, path=case["path"], model=True)
             if case.get("rename"):
@@ -260,26 +326,51 @@ def main():
             check_model(c, exe, res, "file")
         c.finish()
 
-    # ---- corpus: scan, select, compare
+    # ---- generated supplement: at least one sentence per alternative of every rule of the regenerated python.gram
+    import c09_sentences as cs
+    sent_jobs = []
+    if g is not None:
+        problems, sents = cs.check_complete(g["python"])
+        for pr in problems:
+            c.violation("grammar-sentences", "the sentence table no longer covers every alternative of the regenerated python.gram: " + pr["problem"],
+                        dict(rule=pr["rule"], alt=pr["alt"], problem=pr["problem"], text=pr.get("text")), no_input="text" not in pr)
+        seen = set()
+        for s_ in sents + [dict(rule="py312", alt=i, text=t) for i, t in enumerate(cs.EXTRA_312)] \
+                + [dict(rule="layout", alt=i, text=t) for i, t in enumerate(cs.EXTRA_LAYOUT)]:
+            if s_["text"] in seen:
+                continue
+            seen.add(s_["text"])
+            sent_jobs.append(dict(id=len(sent_jobs), src=s_["text"], model=True, rule=f"{s_['rule']}#{s_['alt']}"))
+        c.cov["sentences"] = dict(rules=len([n for n in g["python"]["order"] if not n.startswith("invalid_")]),
+                                  alternatives_with_sentence=len({(s_["rule"], s_["alt"]) for s_ in sents}), distinct_sentences=len(sent_jobs))
+        sres = par("compare", sent_jobs, "jobs", dict(reserved=reserved))
+        sj = {j["id"]: j for j in sent_jobs}
+        for r in sres:
+            r["sentence"], r["rule"] = sj[r["id"]]["src"], sj[r["id"]]["rule"]
+        verdicts(c, sres, "sentence")
+        check_model(c, exe, sres, "sentence")
+
+    if os.environ.get("VERIF_C09_ONLY") == "sentences":       # development knob
+        c.finish()
+    # ---- corpus: index, select, compare
     rng = c.rng
     files, roots = corpus_files()
     c.cov["corpus_roots"] = roots
     c.cov["corpus_files_total"] = len(files)
     t_start = time.time()
-    if quick:
-        cand = [f for f in files if f[1] <= 14000]
-        rng.shuffle(cand)
-        cand = cand[:900]
-    else:
-        cand = list(files)
-    scanned = par("scan", [p for p, _ in cand], "paths", dict(reserved=reserved))
-    for r in scanned:
+    index = corpus_index(c, files, reserved, meta)
+    for r in index:
         if "skip" in r:
             c.hist("scan:skip:" + r["skip"].split(":")[0])
     if quick:
-        chosen = select(scanned, 300, rng)
+        cap = 20000
+        chosen, why, stats = select_cover([r for r in index if r.get("size", 0) <= cap], 2, 1600000, rng, big=cap)
+        allf = {f for r in index if "skip" not in r for f in r.get("fine", [])}
+        stats["features_in_whole_corpus"] = len(allf)
+        stats["features_only_in_files_above_cap"] = len(allf - {f for r in chosen for f in r["fine"]})
+        c.cov["feature_cover"] = stats
     else:
-        chosen = [r for r in scanned if "skip" not in r]
+        chosen = [r for r in index if "skip" not in r]
     chosen.sort(key=lambda r: r["size"])   # smallest first: a time budget cuts the largest files, never the variety
     small = sorted(chosen, key=lambda r: r["size"])
     model_paths = {r["path"] for r in small[:(80 if quick else 600)]}
@@ -294,7 +385,7 @@ def main():
     c.cov["scan_wall_s"] = round(time.time() - t_start, 1)
     size_of = {r["path"]: r["size"] for r in chosen}
     alljobs = sorted(jobs + variants, key=lambda j: (size_of[j["path"]], j["id"]))
-    res = par("compare", alljobs, "jobs", dict(reserved=reserved, cpu_budget=(50 if quick else 2000)))
+    res = par("compare", alljobs, "jobs", dict(reserved=reserved, cpu_budget=((800 // NPROC) if quick else 2000 * 16 // NPROC)))
     byid = {j["id"]: j for j in jobs + variants}
     for r in res:
         j = byid[r["id"]]
